@@ -406,7 +406,7 @@ func main(n : int) -> int {
     show(up) + show(down) * 2 + show(rg) * 3 + show(rd) * 5
 }
 """ % (kk, lo, hi, hi, lo, lo, hi, hi, lo),
-        dict(shape=True, expect_out="".join("%d\r\n" % v for v in [e + kk for e in up] + [e + kk for e in down] + [i * kk for i in range(lo, hi + 1)] + [i * kk for i in range(hi, lo - 1, -1)]),
+        dict(shape=True, idx=True, expect_out="".join("%d\r\n" % v for v in [e + kk for e in up] + [e + kk for e in down] + [i * kk for i in range(lo, hi + 1)] + [i * kk for i in range(hi, lo - 1, -1)]),
              expect_res="I%d" % (sum(e + kk for e in up) * 3 + sum(i * kk for i in range(lo, hi + 1)) * 8))))
     n1, n2 = rng.range(1, 9), rng.range(10, 99)
     out.append(("shape_closure_reassign", """
@@ -639,6 +639,39 @@ func main(n : int) -> int {
     0
 }
 """ % (lit, "\n".join(calls)), dict(shape=True, idx=True, expect_out="".join(P(v) for v in exp), expect_res="I0")))
+    # --- string slices (the empty string included), named bounds of 2-dimensional slice and range parameters, comprehensions over
+    # one-element and descending slices
+    def sslice(t, f, g):
+        if not (0 <= f < len(t) and 0 <= g < len(t)):
+            return "!"
+        step = 1 if g >= f else -1
+        return "".join(t[k] for k in range(f, g + step, step))
+    word = "".join(chr(97 + rng.below(26)) for _ in range(rng.range(3, 6)))
+    cases = [("", 0, 0), ("", 0, 1), ("", 1, 0), (word[:1], 0, 0), (word, len(word) - 1, 0), (word, 0, len(word) - 1), (word, 1, 1), (word, len(word), len(word)), (word, 0, len(word)), (word, 1, 0)]
+    text = "".join(sslice(t, f, g) for (t, f, g) in cases)
+    m = [[r * 4 + c + 1 for c in range(4)] for r in range(3)]
+    (f1, t1, g1, h1), (f2, t2, g2, h2) = (rng.range(0, 1), 2, rng.range(0, 1), 3), (2, rng.range(0, 1), 3, rng.range(0, 2))
+    ra, rb, rc, rd = rng.range(1, 9), rng.range(1, 9), rng.range(1, 9), rng.range(1, 9)
+    a4 = [rng.range(1, 50) for _ in range(4)]
+    lo = rng.range(0, 3)
+    exp3 = [abs(t1 - f1) * 100 + abs(h1 - g1), abs(t2 - f2) * 100 + abs(h2 - g2), ra * 1000 + rb * 100 + rc * 10 + rd, a4[lo] + 1, a4[3] + 1, a4[2] + 1, a4[1] + 1]
+    out.append(("shape_string_slices_named_bounds", """
+func ss(s : string, f : int, t : int) -> string { s[f .. t] } catch (index_out_of_bounds) { "!" }
+func sums(s[f .. t, g .. h] : int) -> int { f * 1000 + t * 100 + g * 10 + h }
+func rsum([a .. b, c .. d] : range) -> int { a * 1000 + b * 100 + c * 10 + d }
+func main(n : int) -> int
+{
+    prints(%s + "\\n");
+    let m = [ [ 1, 2, 3, 4 ], [ 5, 6, 7, 8 ], [ 9, 10, 11, 12 ] ] : int;
+    print(sums(m[%d .. %d, %d .. %d])); print(sums(m[%d .. %d, %d .. %d]));
+    print(rsum([ %d .. %d, %d .. %d ]));
+    let a = [ %d, %d, %d, %d ] : int;
+    let one = [ x + 1 | x in a[%d .. %d] ] : int; let dn = [ x + 1 | x in a[3 .. 1] ] : int;
+    print(one[0]); print(dn[0]); print(dn[1]); print(dn[2]);
+    0
+}
+""" % (" + ".join('ss("%s", %d, %d)' % c for c in cases), f1, t1, g1, h1, f2, t2, g2, h2, ra, rb, rc, rd, a4[0], a4[1], a4[2], a4[3], lo, lo),
+        dict(shape=True, idx=True, expect_out=text + "\n" + "".join(P(v) for v in exp3), expect_res="I0")))
     return out
 
 def effects_family(rng):
@@ -777,6 +810,48 @@ func main(n : int) -> int {
 %s    0
 }
 """ % (xs[0], xs[1], xs[2], ys[0], ys[1], k, k, k2, k3, k, calls), dict(shape=True, capture=True, expect_out="".join(P(v) for v in exp), expect_res="I0")))
+    # closures and the machine's environment register: a nil function value called inside a closure whose clause reads a captured variable;
+    # captured array-dimension names (after other captures, three dimensions); a same-named function declared LATER in the intermediate
+    # function must not be the one an inner function captured
+    base1, base2 = rng.range(2, 40), rng.range(41, 90)
+    R, C, A, B, D = rng.range(2, 6), rng.range(2, 6), rng.range(2, 4), rng.range(2, 5), rng.range(2, 6)
+    kk, zz, sc1, sc2 = rng.range(1, 9), rng.range(1, 9), rng.range(2, 9), rng.range(2, 9)
+    exp2 = [1 + 1 + base1, base2 + 1000, 2 + 1 + base1, C, R * 100 + C + kk * 10000, zz * 1000 + A * 100 + B * 10 + D,
+            (sc1 + 1) * 10 + (sc1 + 1) + 1000, (sc2 + 1) * 10 + (sc2 + 1) + 1000]
+    out.append(("shape_env_register", """
+func inc(n : int) -> int { n + 1 }
+func make(base : int, slot : int) -> (int) -> int
+{
+    var table = {[ 2 ]} : (int) -> int;
+    func run(n : int) -> int { table[slot](n) + base } catch (nil_pointer) { base + 1000 };
+    table[0] = inc;
+    run
+}
+func shape(tab[R, C] : int) -> () -> int { func cols() -> int { C }; cols }
+func area(k : int, tab[R, C] : int) -> () -> int { func f() -> int { R * 100 + C + k * 10000 }; f }
+func dim3(q[A, B, D] : int, z : int) -> () -> int { func g() -> int { z * 1000 + A * 100 + B * 10 + D }; g }
+func outer(scale : int) -> int
+{
+    func weight() -> int { scale };
+    func middle(n : int) -> int
+    {
+        func pick() -> int { weight() + n };
+        let seen = pick();
+        func weight() -> int { 1000 };
+        seen * 10 + pick() + weight()
+    };
+    middle(1)
+}
+func main(n : int) -> int
+{
+    let good = make(%d, 0); let bad = make(%d, 1);
+    print(good(1)); print(bad(1)); print(good(2));
+    let t = {[ %d, %d ]} : int; let q = {[ %d, %d, %d ]} : int;
+    print(shape(t)()); print(area(%d, t)()); print(dim3(q, %d)());
+    print(outer(%d)); print(outer(%d));
+    0
+}
+""" % (base1, base2, R, C, A, B, D, kk, zz, sc1, sc2), dict(shape=True, capture=True, expect_out="".join(P(v) for v in exp2), expect_res="I0")))
     return out
 
 def enumred_family(rng):
